@@ -3,7 +3,7 @@
    Only ExtrOcamlBasic is used: nat, Z, positive stay the extracted inductive types. *)
 From Coq Require Import List ZArith Extraction ExtrOcamlBasic.
 From LMBase Require Import Res ListX IEEE.
-From LMTfm Require Import TfmNum TfmModel TfmOrd TfmFinal TfmConv.
+From LMTfm Require Import TfmNum TfmModel TfmOrd TfmFinal TfmRef TfmConv.
 
 Definition f64_pv_run := @pv_run F64.t NumF64.
 Definition f64_sc_run := @sc_run F64.t NumF64.
@@ -32,5 +32,5 @@ Extraction "tfm_model.ml"
   f64_pv_run f64_sc_run f64_pv_run_ord f64_sc_run_ord f64_ords_ok f64_final_of_run f64_window0 f64_recompute f64_lookup_score f64_ls_flags f64_tenth_c f64_ten_c
   f32_of_bits f64_of_bits f64_to_bits f64_of_f32 f64_div f32_is_neg_inf
   f64_to_dy f32_to_dy dy_add dy_sub dy_mul dy_leb dy_ltb dy_ofZ
-  perm_ok perm_stable new_panics enum_dy conv_dy tail_dy below_dy c12_check c13_check tol_bg
+  perm_ok perm_stable new_panics wrows_of enum_dy conv_dy tail_dy below_dy c12_check c13_check tol_bg
   Z.add Z.mul Z.eqb Z.of_nat Z.to_nat.
